@@ -3469,7 +3469,9 @@ class Session(object):
             if not remaining_callbacks:
                 callback(errors)
 
-        for pool in tuple(self._pools.values()):
+        # the same pools that are waited for: a pool removed or added meanwhile
+        # must neither be waited for in vain nor report back unexpectedly
+        for pool in tuple(remaining_callbacks):
             pool._set_keyspace_for_all_conns(keyspace, pool_finished_setting_keyspace)
 
     def user_type_registered(self, keyspace, user_type, klass):
